@@ -5,27 +5,38 @@ from engine import Case
 from matlib import *
 
 PID = "C03"
-IMPORTS = "From OV Require Import Model.Vector Model.Matrix Model.MatOps."
-MODEL_VO = ["Model/MatOps.vo"]
+IMPORTS = "From OV Require Import Model.Vector Model.Matrix Model.MatOps Model.MatNorms."
+MODEL_VO = ["Model/MatOps.vo", "Model/MatNorms.vo"]
 EXHAUSTIVE = False
-RULE = ("mat.hist cases: (a) products r x k * k x c for every shape 0<=r,k,c<=B (B=5 quick, 8 thorough; exhaustive in shape, "
-        "sampled rational values), (b) every operation on every shape <=4x4 with every index argument 0..dim+1 "
-        "(out-of-range included), (c) seeded random histories of up to 40 operations; distinct = distinct executor line; "
-        "non-trivial = non-empty matrix or an operation that must panic")
+RULE = ("kinds mat.histeq (exact tier) / mat.hist (float tiers) / mat.norms / mat.norm_p: (a) products r x k * k x c for every shape "
+        "0<=r,k,c<=B (B=5 quick, 8 thorough; exhaustive in shape, sampled rational values), (b) every operation on every shape <=3x3 "
+        "(<=4x4 thorough) with every index argument 0..dim+1 (out-of-range included), (p) every ordered pair of 24 editing operations "
+        "(in-range arguments) on 1x1, 2x2, 3x2, 2x3, each as its own two-step history (+3000 sampled triples, thorough), (n) the four "
+        "f64 norms on every shape 0..B x 0..B and norm_p for p in {1,1.5,2,3,4}, (c) seeded random histories of up to 40 operations "
+        "(rat, f64, Complex); in the exact tier every state dump is followed by the derived PartialEq of the matrix against a freshly "
+        "built one; distinct = distinct executor line; non-trivial = non-empty matrix or an operation that must panic")
 TRUSTED = ["Coq 8.16.1 kernel + vm_compute", "Rust executor /verif/harness (Rat = i128 rationals)", "python driver: generators, list-of-rows reference model, stream comparators",
-           "hand-written Gallina model coq/Model/Matrix.v tied to src/matrix/*.rs by differential execution (Rat vs Qc exact; f64 vs primitive floats)"]
-ASSUMPTIONS = ["Rust semantics of Vec/usize as modelled (checked indexing, debug overflow checks)", "the sampled cases are where model and code were compared; the theorems are about the model"]
-UNPROVED = ["norms over f64 (norm_1/inf/p/max) are tied by the float tier and the oracle, not by a theorem over R",
+           "hand-written Gallina model coq/Model/{Matrix,MatOps,MatNorms}.v tied to src/matrix/*.rs by differential execution (Rat vs Qc exact; f64/Complex vs primitive floats)"]
+ASSUMPTIONS = ["Rust semantics of Vec/usize as modelled (checked indexing, debug overflow checks)", "the sampled cases are where model and code were compared; the theorems are about the model",
+               "norms_real only: the four standard-library axioms of the classical real numbers"]
+UNPROVED = ["floating-point accuracy of the f64 norms and libm's powf inside norm_p (the theorems are over exact order/real arithmetic with powf as a parameter; the f64 instance is tied bit-for-bit / by tolerance and searched against mpmath)",
+            "history refinement (run_refines) covers the 18 checked editing operations; the raw (i,j) writes m[(i,j)]= / swap_elem (unchecked addressing, outside the claim) and /= scalar (own theorem mdiv_assign_scalar_spec) are tied and searched only",
             "operand non-mutation / owned=borrowed are run-time observations of the executor (a value model satisfies them vacuously)"]
 
 MANIFEST = dict(
-    text=("Theorems (all shapes, all entry values, all histories) about the flat row-major Gallina model of src/matrix: each operation "
-          "equals its textbook definition and a history refines the list-of-rows spec; the model is run against the implementation on "
-          "every shape 0..5 (0..8 thorough) of the product, every operation x every index on small shapes and random histories "
-          "(Rat vs Qc exact, f64/Complex bit-compared), and a list-of-rows reference searches for a failing input."),
-    note="f64 norms are tied and searched, not proved over R; operand non-mutation is observed at run time.",
-    technique="Coq proof over an abstract ring + model/implementation differential execution (vm_compute vs Rust executor)",
-    design="7 (C03)")
+    text=("43 Coq theorems, all shapes / all entry values / all histories, no ring law assumed, about the flat row-major Gallina model of "
+          "src/matrix: one refinement theorem per operation (result is Ok - i.e. no index leaves the buffer -, wf and shape preserved, every "
+          "entry equals its textbook definition; Panic Guard exactly when the documented range/shape condition fails) for index/get/set row/col, "
+          "delete_row, resize, eye, all fills, swap, matrix*vector, + - neg scale div and the compound assignments, transpose_in_place (both "
+          "branches) and the product as written (get_col/multiply/set_col) for every conformable shape incl. wide, tall and empty; "
+          "step_refines/run_refines: every finite history of the 18 checked editing operations refines a list-of-rows specification; "
+          "norms = textbook definitions over any ordered arithmetic and over R; the legacy set_col is refuted on the committed witnesses. "
+          "The model is run against the implementation (Rat vs Qc exact, f64/Complex bitwise) on every product shape 0..5 (0..8 thorough), "
+          "every operation x every index on small shapes, every ordered pair of editing operations, random histories, with the derived "
+          "PartialEq against a rebuilt matrix after every step; a list-of-rows reference and mpmath search for a failing input."),
+    note="f64 rounding of the norms / libm powf is tied and searched, not proved; raw (i,j) writes and operand non-mutation are observed at run time only.",
+    technique="Coq proof (loop invariants over a representation predicate; no axioms except the stdlib reals for norms_real) + model/implementation differential execution (vm_compute vs Rust executor) + reference-model search",
+    design="7 (C03), Appendix E")
 
 def val(rng, elt):
     if elt == 'rat':
@@ -49,8 +60,138 @@ def rvec(rng, elt, n):
     return [val(rng, elt) for _ in range(n)]
 
 def mk(elt, m0, ops, family, nontrivial=True):
+    # exact tier: kind mat.histeq (every state dump is followed by `m == freshly built matrix`, so stale or missing
+    # raw storage is observable); float tiers: mat.hist (NaN entries would make == false for a harmless reason)
+    if elt == 'rat':
+        return Case(elt, histeq_line(elt, m0, ops), histeq_term(elt, m0, ops),
+                    meta={"m0": m0, "ops": ops}, family=family, nontrivial=nontrivial)
     return Case(elt, hist_line(elt, m0, ops), hist_term(elt, m0, ops),
                 meta={"m0": m0, "ops": ops}, family=family, nontrivial=nontrivial)
+
+# ---- systematic op-pairs: every ordered pair of editing operations, in-range arguments for the current shape
+def _ix(g, n): return g.below(n) if n > 0 else 0
+def _nz(g):
+    x = val(g, 'rat')
+    return x if x != 0 else Fraction(3, 2)
+EDIT_OPS = [
+    ("set_row",        lambda g, r, c: ("set_row", _ix(g, r), rvec(g, 'rat', c))),
+    ("set_col",        lambda g, r, c: ("set_col", _ix(g, c), rvec(g, 'rat', r))),
+    ("delete_row",     lambda g, r, c: ("delete_row", _ix(g, r))),
+    ("resize+rows",    lambda g, r, c: ("resize", r + 1 + g.below(2), c)),          # same cols, more rows
+    ("resize-rows",    lambda g, r, c: ("resize", max(r - 1, 0), c)),               # same cols, fewer rows
+    ("resize+cols",    lambda g, r, c: ("resize", r, c + 1)),
+    ("resize-cols",    lambda g, r, c: ("resize", r + g.below(2), max(c - 1, 0))),
+    ("resize-same",    lambda g, r, c: ("resize", r, c)),
+    ("transpose_in_place", lambda g, r, c: ("transpose_in_place",)),
+    ("swap_rows",      lambda g, r, c: ("swap_rows", _ix(g, r), _ix(g, r))),
+    ("fill",           lambda g, r, c: ("fill", val(g, 'rat'))),
+    ("fill_diag",      lambda g, r, c: ("fill_diag", val(g, 'rat'))),
+    ("fill_band",      lambda g, r, c: ("fill_band", g.range(-max(r - 1, 0), max(c - 1, 0)), val(g, 'rat'))),
+    ("fill_tridiag",   lambda g, r, c: ("fill_tridiag", val(g, 'rat'), val(g, 'rat'), val(g, 'rat'))),
+    ("fill_row",       lambda g, r, c: ("fill_row", _ix(g, r), val(g, 'rat'))),
+    ("fill_col",       lambda g, r, c: ("fill_col", _ix(g, c), val(g, 'rat'))),
+    ("clear",          lambda g, r, c: ("clear",)),
+    ("set",            lambda g, r, c: ("set", _ix(g, r), _ix(g, c), val(g, 'rat')) if r * c > 0 else ("numel",)),
+    ("swap_elem",      lambda g, r, c: ("swap_elem", _ix(g, r), _ix(g, c), _ix(g, r), _ix(g, c)) if r * c > 0 else ("numel",)),
+    ("add_assign",     lambda g, r, c: ("add_assign", rmat(g, 'rat', r, c))),
+    ("sub_assign_own", lambda g, r, c: ("sub_assign_own", rmat(g, 'rat', r, c))),
+    ("mul_assign_s",   lambda g, r, c: ("mul_assign_s", val(g, 'rat'))),
+    ("div_assign_s",   lambda g, r, c: ("div_assign_s", _nz(g))),
+    ("add_assign_s",   lambda g, r, c: ("add_assign_s", val(g, 'rat'))),
+]   # (-= scalar is the same loop as += scalar; it is exercised by the single-op and history families)
+PAIR_SHAPES = [(1, 1), (2, 2), (3, 2), (2, 3)]
+
+def distinct_mat(r, c):
+    """entries 1..r*c: every element distinct and non-zero, so a misplaced or stale element shows"""
+    return (r, c, [Fraction(k + 1) for k in range(r * c)])
+
+def op_chain(g, m0, gens):
+    ops = []
+    for _, gen in gens:
+        r, c = shape_after(m0, ops)
+        ops.append(gen(g, r, c))
+    return ops
+
+def gen_op_pairs(rng, tier):
+    cases = []
+    g = rng.fork("op-pairs")
+    for (r, c) in PAIR_SHAPES:
+        m0 = distinct_mat(r, c)
+        for a in EDIT_OPS:
+            for b in EDIT_OPS:
+                cases.append(mk('rat', m0, op_chain(g, m0, [a, b]), "op-pairs"))
+    if tier == "thorough":
+        for _ in range(3000):
+            r, c = PAIR_SHAPES[g.below(len(PAIR_SHAPES))]
+            m0 = distinct_mat(r, c)
+            gens = [EDIT_OPS[g.below(len(EDIT_OPS))] for _ in range(3)]
+            cases.append(mk('rat', m0, op_chain(g, m0, gens), "op-triples"))
+    return cases
+
+def norm_val(rng):
+    k = rng.below(10)
+    if k == 0: return 0.0
+    if k == 1: return -0.0
+    if k < 5: return float(rng.range(-9, 9))
+    if k < 7: return rng.range(-64, 64) / 8.0
+    return (rng.unit() - 0.5) * 10 ** rng.range(-3, 3)
+
+def mk_norms(m0, family="norms"):
+    r, c, _ = m0
+    return Case('f64', "mat.norms " + tok_mat('f64', m0), "@mat_norms SAF flat_f %s" % coq_mat('f64', m0),
+                meta={"kind": "norms", "m0": m0}, family=family, nontrivial=(r * c > 0), tol=1e-13)
+
+def mk_scale_l(m0, x, family="scale_l"):
+    r, c, _ = m0
+    t = "fl_res (@fl_mat AF flat_f) (@mscale_l AF %s %s)" % (coq_scalar('f64', x), coq_mat('f64', m0))
+    t2 = "fl_res (@fl_mat AF flat_f) (@mscale AF %s %s)" % (coq_mat('f64', m0), coq_scalar('f64', x))
+    return Case('f64', "mat.scale_l %s %s" % (tok_mat('f64', m0), tok_scalar('f64', x)), "(%s ++ %s)" % (t, t2),
+                meta={"kind": "scale_l", "m0": m0, "x": x}, family=family, nontrivial=(r * c > 0))
+
+def mk_norm_p(m0, p, family="norm_p"):
+    r, c, _ = m0
+    return Case('f64', "mat.norm_p %s %s" % (tok_mat('f64', m0), tok_scalar('f64', p)), None,
+                meta={"kind": "norm_p", "m0": m0, "p": p}, family=family, nontrivial=(r * c > 0))
+
+def norms_reference(m0):
+    """textbook definitions, exact rational arithmetic on the (dyadic) entries"""
+    r, c, vals = m0
+    a = [[abs(Fraction(vals[i * c + j])) for j in range(c)] for i in range(r)]
+    n1 = max([sum((a[i][j] for i in range(r)), Fraction(0)) for j in range(c)], default=Fraction(0))
+    ni = max([sum((a[i][j] for j in range(c)), Fraction(0)) for i in range(r)], default=Fraction(0))
+    nm = max([a[i][j] for i in range(r) for j in range(c)], default=Fraction(0))
+    s2 = sum((a[i][j] ** 2 for i in range(r) for j in range(c)), Fraction(0))
+    return n1, ni, nm, s2
+
+def close(x, ref, rel=1e-12):
+    return abs(x - ref) <= rel * max(abs(ref), 1e-300) or x == ref
+
+def norms_oracle(case, items):
+    import mpmath, math
+    m0 = case.meta["m0"]
+    if any(not math.isfinite(v) for v in m0[2]):
+        return None      # NaN / infinite entries are outside the property's quantifier: model-vs-implementation tie only
+    if any(it[0] == 'P' for it in items):
+        return "a norm panicked on a well-formed matrix: %r" % (items,)
+    got = [bits_f64(it[1]) for it in items if it[0] == 'f']
+    if case.meta["kind"] == "norms":
+        if len(got) != 4: return "expected 4 norms, got %r" % (items,)
+        n1, ni, nm, s2 = norms_reference(m0)
+        mpmath.mp.prec = 200
+        ref = [float(n1), float(ni), float(nm), float(mpmath.sqrt(mpmath.mpf(s2.numerator) / s2.denominator))]
+        for name, x, y in zip(("norm_1 (max column sum)", "norm_inf (max row sum)", "norm_max", "norm_frob"), got, ref):
+            if not close(x, y):
+                return "%s = %r but the definition gives %r on %r" % (name, x, y, m0)
+        return None
+    p = case.meta["p"]
+    r, c, vals = m0
+    mpmath.mp.prec = 200
+    s = mpmath.mpf(0)
+    for v in vals: s += mpmath.power(abs(mpmath.mpf(v)), mpmath.mpf(p))
+    ref = float(mpmath.power(s, 1 / mpmath.mpf(p))) if s != 0 else 0.0
+    if len(got) != 1 or not close(got[0], ref, 1e-10):
+        return "norm_p(%r) = %r but (sum |a_ij|^p)^(1/p) = %r on %r" % (p, got, ref, m0)
+    return None
 
 def rand_op(rng, elt, r, c, allow_bad=True):
     """one operation, mostly valid for an r x c matrix, sometimes deliberately out of range / mismatched"""
@@ -62,14 +203,14 @@ def rand_op(rng, elt, r, c, allow_bad=True):
     names = ["set_row", "set_col", "delete_row", "resize", "transpose_in_place", "swap_rows", "swap_elem", "fill", "fill_diag",
              "fill_band", "fill_tridiag", "fill_row", "fill_col", "set", "add_assign", "sub_assign", "mul_assign_s", "div_assign_s",
              "add_assign_s", "sub_assign_s", "get", "get_row", "get_col", "multiply", "transpose", "neg", "add", "sub", "scale", "div",
-             "mul", "mul_l", "eye", "numel", "clone_mut", "add_assign_own", "sub_assign_own"]
+             "mul", "mul_l", "eye", "numel", "clone_mut", "add_assign_own", "sub_assign_own", "clear"]
     name = names[rng.below(len(names))]
     s = lambda: val(rng, elt)
     if name == "set_row": return (name, idx(r), rvec(rng, elt, c if not bad else rng.range(0, c + 1)))
     if name == "set_col": return (name, idx(c), rvec(rng, elt, r if not bad else rng.range(0, r + 1)))
     if name == "delete_row": return (name, idx(r))
     if name == "resize": return (name, rng.range(0, 5), rng.range(0, 5))
-    if name in ("transpose_in_place", "transpose", "neg", "numel"): return (name,)
+    if name in ("transpose_in_place", "transpose", "neg", "numel", "clear"): return (name,)
     if name == "swap_rows": return (name, idx(r), idx(r))
     if name == "swap_elem":
         if r * c == 0: return ("numel",)
@@ -100,6 +241,8 @@ def rand_op(rng, elt, r, c, allow_bad=True):
     if name == "eye": return (name, rng.range(0, 4))
     raise ValueError(name)
 
+NONMUTATING = {"get", "get_row", "get_col", "multiply", "transpose", "neg", "add", "sub", "scale", "div", "mul", "mul_l", "eye", "numel"}
+
 def shape_after(m0, ops):
     """shape bookkeeping for the generator only (uses the reference model)"""
     m = RefMat(*m0)
@@ -121,7 +264,7 @@ def generate(rng, tier):
                 a = rmat(g, 'rat', r, k); b = rmat(g, 'rat', k, c)
                 cases.append(mk('rat', a, [("mul", b)], "product-shapes", nontrivial=(r * c > 0)))
     if tier == "quick":   # a sample of the larger shapes as well
-        for _ in range(40):
+        for _ in range(30):
             r, k, c = g.range(0, 8), g.range(0, 8), g.range(0, 8)
             cases.append(mk('rat', rmat(g, 'rat', r, k), [("mul", rmat(g, 'rat', k, c))], "product-shapes-large"))
     # (b) every operation on every small shape with every index
@@ -144,12 +287,54 @@ def generate(rng, tier):
             for nr in range(0, S + 2):
                 for nc in range(0, S + 2):
                     ops.append(("add", rmat(g, 'rat', nr, nc)))
-            # each op runs against the same start (every op is its own short history, so state does not drift)
+                    if (nr, nc) == (r, c) or abs(nr - r) + abs(nc - c) == 1:
+                        ops.append(("sub", rmat(g, 'rat', nr, nc)))
+            # products with every inner dimension 0..S+1, conformable or not (shape guard of * on both sides)
+            for k in range(0, S + 2):
+                ops.append(("mul", rmat(g, 'rat', k, 1 + g.below(3))))
+                ops.append(("mul_l", rmat(g, 'rat', 1 + g.below(3), k)))
+            # compound assignments with a matrix operand: every neighbouring (mismatched) shape must be refused and
+            # leave the matrix alone; the matching shape last (one history per operator)
+            for kind in ("add_assign", "sub_assign", "add_assign_own", "sub_assign_own"):
+                hs = [(kind, rmat(g, 'rat', nr, nc)) for (nr, nc) in
+                      [(r + 1, c), (r, c + 1), (r - 1, c), (r, c - 1), (r + 1, c + 1), (c, r), (0, 0)]
+                      if nr >= 0 and nc >= 0 and (nr, nc) != (r, c)]
+                cases.append(mk('rat', m0, hs + [(kind, rmat(g, 'rat', r, c))], "shape-guards"))
+            # each op runs against the same start: a state-changing op is its own one-step history; the value-returning
+            # ones (and their out-of-range variants, which panic) leave the state alone and share one history per shape
+            pure = [o for o in ops if o[0] in NONMUTATING]
             for o in ops:
-                cases.append(mk('rat', m0, [o], "single-op", nontrivial=True))
+                if o[0] not in NONMUTATING:
+                    cases.append(mk('rat', m0, [o], "single-op", nontrivial=True))
+            cases.append(mk('rat', m0, pure, "single-op-readers", nontrivial=True))
             for nr in range(0, S + 2):
                 for nc in range(0, S + 2):
                     cases.append(mk('rat', m0, [("resize", nr, nc)], "single-op"))
+    # (n) norms: every shape 0..5 x 0..5 (0..8 thorough), f64 entries; norm_p for a menu of exponents
+    g = rng.fork("norms")
+    for r in range(B + 1):
+        for c in range(B + 1):
+            for rep in range(2 if tier == "quick" else 3):
+                m0 = (r, c, [norm_val(g) for _ in range(r * c)])
+                cases.append(mk_norms(m0))
+                if rep == 0 and r * c > 0:
+                    cases.append(mk_norm_p(m0, [1.0, 1.5, 2.0, 3.0, 4.0][g.below(5)]))
+    # a column-dominant and a row-dominant pattern on every non-square shape (norm_1 and norm_inf must differ)
+    for r in range(1, 5):
+        for c in range(1, 5):
+            if r != c:
+                cases.append(mk_norms((r, c, [float(1 + i + 10 * j) * (-1) ** (i + j) for i in range(r) for j in range(c)]), "norms-pattern"))
+    # (p) every ordered pair of editing operations on 1x1, 2x2, 3x2, 2x3 (+ sampled triples in the thorough tier)
+    cases += gen_op_pairs(rng, tier)
+    # non-finite entries: tie only (f64::max ignores a NaN operand: the model says the same)
+    nan, inf = float("nan"), float("inf")
+    for m0 in [(1, 2, [nan, 2.0]), (2, 2, [1.0, -inf, 3.0, 4.0]), (2, 3, [1.0, nan, -2.0, inf, 0.5, -0.0]), (2, 1, [nan, nan])]:
+        cases.append(mk_norms(m0, "norms-nonfinite"))
+    # (s) f64 * matrix on a few shapes; identity matrices of every size 0..B+1
+    g = rng.fork("misc")
+    for (r, c) in [(0, 0), (0, 2), (1, 1), (2, 3), (3, 2), (4, 4)]:
+        cases.append(mk_scale_l((r, c, [norm_val(g) for _ in range(r * c)]), val(g, 'f64')))
+    cases.append(mk('rat', distinct_mat(1, 1), [("eye", n) for n in range(B + 2)], "eye-sizes"))
     # (c) random histories
     g = rng.fork("hist")
     nh = 400 if tier == "thorough" else 80
@@ -169,6 +354,12 @@ def generate(rng, tier):
     return cases
 
 def case_from_json(j):
+    if j.get("meta", {}).get("kind") == "norms":
+        m0 = j["meta"]["m0"]; return mk_norms((m0[0], m0[1], [float(x) for x in m0[2]]), "corpus")
+    if j.get("meta", {}).get("kind") == "scale_l":
+        m0 = j["meta"]["m0"]; return mk_scale_l((m0[0], m0[1], [float(x) for x in m0[2]]), float(j["meta"]["x"]), "corpus")
+    if j.get("meta", {}).get("kind") == "norm_p":
+        m0 = j["meta"]["m0"]; return mk_norm_p((m0[0], m0[1], [float(x) for x in m0[2]]), float(j["meta"]["p"]), "corpus")
     def conv(x):
         if isinstance(x, str) and "/" in x: return Fraction(x)
         if isinstance(x, list): return [conv(y) for y in x]
@@ -192,9 +383,17 @@ def case_from_json(j):
     return mk(elt, m0, ops, "corpus")
 
 def oracle(case, items):
+    if case.meta.get("kind") in ("norms", "norm_p"):
+        return norms_oracle(case, items)
+    if case.meta.get("kind") == "scale_l":
+        r, c, vals = case.meta["m0"]; x = case.meta["x"]
+        exp = ([('i', r), ('i', c)] + [('f', f64_bits(v * x)) for v in vals]) * 2
+        if items != exp:
+            return "f64 * matrix / matrix * f64 differ from the entrywise products: got %r, expected %r" % (items[:12], exp[:12])
+        return None
     if case.elt != 'rat':
         return None
-    exp = ref_hist('rat', case.meta["m0"], case.meta["ops"])
+    exp = ref_hist('rat', case.meta["m0"], case.meta["ops"], eq=True)
     d = streams_equal_exact(exp, items)
     if d:
         return "dense matrix history disagrees with the list-of-rows reference: " + d
